@@ -94,6 +94,20 @@ Proof.
   exact (logdb_tracks_canonical_lemma g gp tag Hg r db I st P).
 Qed.
 
+(* both sentences together: after every import history, every event filter answer is exactly the matching
+   subsequence of the canonical chain's logs (window [offset, offset+limit) of the matching rows, in chain order or
+   reversed) *)
+Theorem filter_on_canonical_logs g gp tag r db st cs o out : num_of g = 0 -> imported g gp tag r db ->
+  is_path r (r_best r) st -> filter_events db cs o = Some out ->
+  exists full,
+    sublist full (if fo_desc o then rev (chain_events r st) else chain_events r st) /\
+    (forall x, In x full <-> In x (chain_events r st) /\ any_crit ev_match cs x = true /\ in_range o (er_seq x)) /\
+    out = match fo_page o with None => full | Some (off, lim) => takeN lim (dropN off full) end.
+Proof.
+  intros Hg I P F. destruct (logdb_is_canonical_logs g gp tag r db Hg I st P) as [E _]. rewrite <- E.
+  destruct (filter_is_subsequence_events db cs o out F) as [full [H1 [H2 [H3 _]]]]. exists full. auto.
+Qed.
+
 (* writing a block above every stored key appends exactly the rows its receipts prescribe *)
 Theorem write_block_appends_rows b d d' : write_block b d = Some d' -> below (num_of (b_id b) * two35) d ->
   db_events d' = db_events d ++ block_events b /\ db_transfers d' = db_transfers d ++ block_transfers b.
@@ -178,5 +192,6 @@ Print Assumptions truncate_then_insert_partial.
 Print Assumptions logdb_tracks_canonical.
 Print Assumptions canonical_path_exists.
 Print Assumptions logdb_is_canonical_logs.
+Print Assumptions filter_on_canonical_logs.
 Print Assumptions write_block_appends_rows.
 Print Assumptions sync_reestablishes_canonical.
